@@ -92,16 +92,16 @@ func c01Rules(tier string) []Rule {
 			rs = append(rs, core.InstrPresent(w, id, "PROV", f, `^store &local<\[2\]corev1\.ResourceList>\[1\] = \$3\.Requests$`, 1, "…plus this pod's")...)
 			rs = append(rs, core.InstrPresent(w, id, "PROV", f, `^call \(scheduling\.Requirements\)\.Add\(`+nbase+`, \(scheduling\.Requirements\)\.Values\(\$5\)\)$`, 1, "volume requirements narrow the claim")...)
 			rs = append(rs, core.InstrPresent(w, id, "PROV", f, `^call \(scheduling\.Requirements\)\.Add\(`+nbase+`, \(scheduling\.Requirements\)\.Values\(\(\*sched\.Topology\)\.AddRequirements\(`, 1, "topology requirements narrow the claim")...)
-			rs = append(rs, core.InstrPresent(w, id, "PROV", f, `^return `+nbase+`, phi\(sched\.filterInstanceTypesByRequirements\(`, 1, "the narrowed requirements and the surviving instance types are returned")...)
+			rs = append(rs, core.InstrPresent(w, id, "PROV", f, `^return `+nbase+`, phi\(lo\.Filter\[\*cloudprovider\.InstanceType, cloudprovider\.InstanceTypes\]\(sched\.filterInstanceTypesByRequirements\(`, 1, "the narrowed requirements and the surviving instance types are returned")...)
 			rs = append(rs, core.InstrPresent(w, id, "PROV", nc+"CanAdd", `^call \(scheduling\.Requirements\)\.Add\(scheduling\.NewRequirements\(\(scheduling\.Requirements\)\.Values\(\$0\.NodeClaimTemplate\.Requirements\)\), \(scheduling\.Requirements\)\.Values\(\$3\.Requirements\)\)$`, 1, "the pod's requirements narrow a copy of the claim's requirements")...)
 			return rs
 		}},
 
 		// ---- (3) the instance-type filter
-		DOM{ID: "C01.DOM1", Fn: filt, Sink: `^call append\(phi\(phi\(.*\), &local<\[1\]\*cloudprovider\.InstanceType>\[:\]\)$`, Gates: gates(
+		DOM{ID: "C01.DOM1", Fn: filt, Sink: `^call append\(phi\(.*\), &local<\[1\]\*cloudprovider\.InstanceType>\[:\]\)$`, Gates: gates(
 			G(`+^sched\.compatible\(`+it+`, \$1\)$`),
-			G(`+^sched\.fits\(`+it+`, phi\(utils/resources\.MergeInto\(utils/resources\.MergeInto\(…\), ….DaemonOverhead\)\|\$5\), \$1\)#0$`),
-			G(`+^sched\.fits\(`+it+`, phi\(utils/resources\.MergeInto\(utils/resources\.MergeInto\(…\), ….DaemonOverhead\)\|\$5\), \$1\)#1$`),
+			G(`+^sched\.fits\(`+it+`, phi\(\$5\|utils/resources\.MergeInto\(utils/resources\.MergeInto\(…\), ….DaemonOverhead\)\), \$1\)#0$`),
+			G(`+^sched\.fits\(`+it+`, phi\(\$5\|utils/resources\.MergeInto\(utils/resources\.MergeInto\(…\), ….DaemonOverhead\)\), \$1\)#1$`),
 			G(`+^\(apim/util/sets\.Set\[\*cloudprovider\.InstanceType\]\)\.Has\(apim/util/sets\.New\[\*cloudprovider\.InstanceType\]\(\$0\), `+it+`\)$`),
 			G(`+^\(\*scheduling\.HostPortUsage\)\.Conflicts\(\$4\[.*\]\.HostPortUsage, \$2, scheduling\.GetHostPorts\(\$2\)\) == nil$`),
 		), Note: "an instance type survives only if eligible, compatible, fitting WITH daemon overhead, offered, and free of daemon host-port conflicts"},
@@ -126,6 +126,19 @@ func c01Rules(tier string) []Rule {
 			rs = append(rs, core.InstrPresent(w, id, "PROV", "(*cloudprovider.InstanceType).AllocatableOfferingsList", `^return \$0\.allocatableOfferings$`, 1, "…and is what fits() iterates")...)
 			return rs
 		}},
+
+		// volume topology: the requirements of several volumes narrow each other (intersection), never overwrite
+		core.Custom{ID: "C01.PROV9", Kind: "PROV", Run: func(w *core.World, id string) []core.Result {
+			const m = "sched.mergeVolumeRequirements"
+			rs := core.InstrPresent(w, id, "PROV", m, `^call \(scheduling\.Requirements\)\.Add\(scheduling\.NewRequirements\(nil\), \(scheduling\.Requirements\)\.Values\(\$0\)\)$`, 1, "the requirements accumulated so far are added (Requirements.Add intersects per key)")
+			rs = append(rs, core.InstrPresent(w, id, "PROV", m, `^call \(scheduling\.Requirements\)\.Add\(scheduling\.NewRequirements\(nil\), \(scheduling\.Requirements\)\.Values\(\$1\)\)$`, 1, "…and the next volume's requirements are added to the same fresh set")...)
+			rs = append(rs, core.InstrPresent(w, id, "PROV", m, `^return scheduling\.NewRequirements\(nil\)$`, 1, "the fresh, narrowed set is returned")...)
+			return rs
+		}},
+		DOM{ID: "C01.DOM5", Fn: "sched.mergeVolumeRequirements", Sink: `^return`, Gates: gates(
+			G(`instr:^call \(scheduling\.Requirements\)\.Add\(scheduling\.NewRequirements\(nil\), \(scheduling\.Requirements\)\.Values\(\$1\)\)$`),
+			G(`+^\$0 == nil$`, `instr:^call \(scheduling\.Requirements\)\.Add\(scheduling\.NewRequirements\(nil\), \(scheduling\.Requirements\)\.Values\(\$0\)\)$`),
+		)},
 
 		// ---- (4) bookkeeping on commit
 		core.Custom{ID: "C01.PROV6", Kind: "PROV", Run: func(w *core.World, id string) []core.Result {
